@@ -99,6 +99,14 @@ func (w *Worker) Begin(desc func() string) {
 }
 func (w *Worker) End() { atomic.StoreInt64(&w.curStart, 0) }
 
+// Tick tells the watchdog that the worker is making progress inside its unit
+// (called once per evaluated case: one build plus its queries).
+func (w *Worker) Tick() {
+	if atomic.LoadInt64(&w.curStart) != 0 {
+		atomic.StoreInt64(&w.curStart, time.Now().UnixNano())
+	}
+}
+
 // Report records a violation found at the unit the worker is processing.  It
 // returns false when the violation matches a known finding: the caller should
 // then go on exploring (a known finding must not hide other violations).
@@ -164,6 +172,12 @@ func loadKnown() []KnownFinding {
 	}
 	return f.Findings
 }
+
+// noProgressLimit: a worker that stays inside ONE case (one build plus its
+// queries; Tick marks the case boundaries) for this long is reported as
+// non-terminating.  The largest case of any check takes well under 10 s on an
+// idle machine; the limit leaves a factor of > 40 for a loaded one.
+const noProgressLimit = 420 * time.Second
 
 // memGuardBytes: heap size at which the watchdog declares a runaway allocation.
 var memGuardBytes = uint64(14) << 30
@@ -366,13 +380,13 @@ func (r *Run) watchdog() {
 		now := time.Now().UnixNano()
 		for _, w := range r.workers {
 			st := atomic.LoadInt64(&w.curStart)
-			if st != 0 && now-st > int64(90*time.Second) {
+			if st != 0 && now-st > int64(noProgressLimit) {
 				desc := "?"
 				if f, ok := w.cur.Load().(func() string); ok {
 					desc = f()
 				}
-				fmt.Fprintf(os.Stderr, "watchdog: a case has been running for > 90 s: %s\n", desc)
-				r.report(Viol{Sig: "non-termination", Msg: "case did not terminate within 90 s: " + desc, Kind: "none", Unit: 0})
+				fmt.Fprintf(os.Stderr, "watchdog: a case has been running for > %v: %s\n", noProgressLimit, desc)
+				r.report(Viol{Sig: "non-termination", Msg: fmt.Sprintf("a single case (one build and its queries) did not terminate within %v: %s", noProgressLimit, desc), Kind: "none", Unit: 0})
 				code := r.Finish()
 				os.Exit(code)
 			}
